@@ -105,6 +105,13 @@ func C07_HandOverAtCurrentOwner() {
 	nc := s.Dst.Find(nonceKey(tok))
 	verif.Assert("counter-touched", nc != nil)
 	c := counterOf(nc.Init)
+	if verif.BytesEq(newOwner, s.Dst.Addr) {
+		// a hand-over to the current holder itself: it keeps counter and role
+		verif.Assert("self-handover-keeps-counter", counterOf(nc.Cur) == c)
+		verif.Assert("self-handover-keeps-role", countRole(rolesAfter(s, s.Dst, tok), vmcommon.ESDTRoleNFTCreate) == 1)
+		verif.Reach("self-handover", true)
+		return
+	}
 	verif.Assert("old-counter-zeroed", counterOf(nc.Cur) == 0)
 	verif.Assert("old-role-removed", countRole(rolesAfter(s, s.Dst, tok), vmcommon.ESDTRoleNFTCreate) == 0)
 	// the message carries exactly c
@@ -165,12 +172,13 @@ func C07_HandOverAtNextOwner() {
 // ---------------------------------------------------------------------------------------
 // C08
 
-var metaOpt = Opt{GasEnough: true, NoRAE: true, Direct: true, FixedCaller: true, NoPause: true, NoFrozen: true, NoCall: true}
+var metaOpt = Opt{GasEnough: true, NoRAE: true, Direct: true, FixedCaller: true, NoPause: true, NoFrozen: true, NoCall: true, Split1: true}
 
 // C08_CreateStoresMetadata: the stored metadata is exactly what the call was given, creator is
 // the creating account and royalties are at most 10000.
 func C08_CreateStoresMetadata() {
 	o := metaOpt
+	o.Small = !verif.Thorough()
 	s := scnNFTCreate(o)
 	s.Run()
 	if s.Err != nil {
@@ -225,22 +233,23 @@ func C08_AddURI() {
 	pre, c := metaBefore(s, s.Snd, key)
 	aliased := aliasedRead(s, s.Snd)
 	verif.Assert("entry-read", verif.And(pre != nil, c != nil))
+	ax := func(id string, cond bool) { verif.AssertExcept(id, cond, "F3", aliased) }
 	post := s.W.Codec.Token(c.Cur)
 	verif.AssertExcept("entry-still-there", post != nil && post.TokenMetaData != nil, "F3", aliased)
 	if post == nil || post.TokenMetaData == nil {
 		return
 	}
 	a, b := pre.TokenMetaData, post.TokenMetaData
-	verif.Assert("balance-unchanged", post.Value.Cmp(pre.Value) == 0)
-	verif.Assert("other-fields-unchanged", verif.And(a.Nonce == b.Nonce, verif.BytesEq(a.Name, b.Name), verif.BytesEq(a.Creator, b.Creator),
+	ax("balance-unchanged", post.Value.Cmp(pre.Value) == 0)
+	ax("other-fields-unchanged", verif.And(a.Nonce == b.Nonce, verif.BytesEq(a.Name, b.Name), verif.BytesEq(a.Creator, b.Creator),
 		a.Royalties == b.Royalties, verif.BytesEq(a.Hash, b.Hash), verif.BytesEq(a.Attributes, b.Attributes)))
-	verif.Assert("uris-appended-count", len(b.URIs) == len(a.URIs)+len(args)-2)
+	ax("uris-appended-count", len(b.URIs) == len(a.URIs)+len(args)-2)
 	if len(b.URIs) == len(a.URIs)+len(args)-2 {
 		for i := range a.URIs {
-			verif.Assert("old-uri-kept", verif.BytesEq(a.URIs[i], b.URIs[i]))
+			ax("old-uri-kept", verif.BytesEq(a.URIs[i], b.URIs[i]))
 		}
 		for i := 2; i < len(args); i++ {
-			verif.Assert("new-uri-appended", verif.BytesEq(b.URIs[len(a.URIs)+i-2], args[i]))
+			ax("new-uri-appended", verif.BytesEq(b.URIs[len(a.URIs)+i-2], args[i]))
 		}
 	}
 	for _, wr := range s.W.Log {
@@ -261,15 +270,16 @@ func C08_UpdateAttributes() {
 	pre, c := metaBefore(s, s.Snd, key)
 	aliased := aliasedRead(s, s.Snd)
 	verif.Assert("entry-read", verif.And(pre != nil, c != nil))
+	ax := func(id string, cond bool) { verif.AssertExcept(id, cond, "F3", aliased) }
 	post := s.W.Codec.Token(c.Cur)
 	verif.AssertExcept("entry-still-there", post != nil && post.TokenMetaData != nil, "F3", aliased)
 	if post == nil || post.TokenMetaData == nil {
 		return
 	}
 	a, b := pre.TokenMetaData, post.TokenMetaData
-	verif.Assert("balance-unchanged", post.Value.Cmp(pre.Value) == 0)
-	verif.Assert("attributes-replaced", verif.BytesEq(b.Attributes, args[2]))
-	verif.Assert("other-fields-unchanged", verif.And(a.Nonce == b.Nonce, verif.BytesEq(a.Name, b.Name), verif.BytesEq(a.Creator, b.Creator),
+	ax("balance-unchanged", post.Value.Cmp(pre.Value) == 0)
+	ax("attributes-replaced", verif.BytesEq(b.Attributes, args[2]))
+	ax("other-fields-unchanged", verif.And(a.Nonce == b.Nonce, verif.BytesEq(a.Name, b.Name), verif.BytesEq(a.Creator, b.Creator),
 		a.Royalties == b.Royalties, verif.BytesEq(a.Hash, b.Hash), len(a.URIs) == len(b.URIs)))
 	for _, wr := range s.W.Log {
 		verif.AssertExcept("nothing-else-written", verif.And(wr.Kind == "kv", wr.Acct == s.Snd, len(wr.Key) == len(key), verif.BytesEq(wr.Key, key)), "F3", aliased)
@@ -284,6 +294,7 @@ var hopOpt = Opt{GasEnough: true, NoRAE: true, Direct: true, Small: true, NoPaus
 func C08_HopSameShard() {
 	s := scnNFTTransfer(hopOpt)
 	s.W.Shards.Set(s.DstAddr, s.W.Shards.Self)
+	verif.Assume(num(s.Amt).Sign() > 0)
 	s.Run()
 	if s.Err != nil {
 		verif.Reach("rejected", true)
@@ -336,7 +347,7 @@ func hopCross(s *Scn) {
 		return
 	}
 	for i := range items {
-		if nonceOf(items[i].nonceB) == 0 || pres[i] == nil {
+		if nonceOf(items[i].nonceB) == 0 || pres[i] == nil || items[i].qty.Sign() == 0 {
 			continue
 		}
 		dc := dst.Find(items[i].key)
